@@ -334,16 +334,26 @@ func repoFormat(e *Env, src string) (string, error) {
 			pat = v.Pattern
 		}
 	}
-	fd, pk := e.P.Decl(tplRelRules, "CodeFormatter.Format")
-	if fd != nil {
-		ast.Inspect(fd.Body, func(n ast.Node) bool {
-			if c, ok := n.(*ast.CallExpr); ok && calleeName(load.Callee(pk.TypesInfo, c)) == "regexp.(Regexp).ReplaceAll" && len(c.Args) == 2 {
+	// the replacement text of the squeeze: the ReplaceAll call on that expression, wherever in the package the
+	// formatter keeps it (Format itself or a helper it delegates to)
+	if pk := e.P.Pkg(tplRelRules); pk != nil {
+		for _, f := range pk.Syntax {
+			ast.Inspect(f, func(n ast.Node) bool {
+				c, ok := n.(*ast.CallExpr)
+				if !ok || calleeName(load.Callee(pk.TypesInfo, c)) != "regexp.(Regexp).ReplaceAll" || len(c.Args) != 2 {
+					return true
+				}
+				if se, ok := ast.Unparen(c.Fun).(*ast.SelectorExpr); ok {
+					if id, ok := ast.Unparen(se.X).(*ast.Ident); !ok || id.Name != "reEmptyNewLines" {
+						return true
+					}
+				}
 				if conv, ok := ast.Unparen(c.Args[1]).(*ast.CallExpr); ok && len(conv.Args) == 1 {
 					repl, _ = load.StringOf(pk.TypesInfo, conv.Args[0])
 				}
-			}
-			return true
-		})
+				return true
+			})
+		}
 	}
 	if pat != "" {
 		re, err := regexp.Compile(pat)
